@@ -1,6 +1,7 @@
 import OpusModel.SilkParams
 import OpusModel.SilkSynthIdx
 import OpusModel.SilkSynthIdxFrame
+import OpusModel.SilkSynthIdxParams
 import Driver.Util
 /- Suite `silkparams` (property C18): SILK side-information dequantisers.
    Lists are `a,b,c`; codebooks are `nbmb` / `wb`. -/
@@ -158,6 +159,16 @@ def handle : List String → String
           if r.2 then "ABORT" else s!"OK {Opus.SilkSynthIdx.extentsStr r.1 coreTieArrays}"
       | _, _, _, _, _ => "bad-op"
     | _, _, _, _, _, _ => "bad-op"
+  | ["synthparams", fs, nb, sig, per, ltp, scale, interp, ffar, loss] =>
+    match [fs, sig, per, scale, interp, ffar, loss].mapM parseInt, parseNat nb, parseIntList ltp with
+    | some [fs, sig, per, scale, interp, ffar, loss], some nb, some ltp =>
+      if ltp.length ≠ 4 ∨ (nb ≠ 2 ∧ nb ≠ 4) ∨ (fs ≠ 8 ∧ fs ≠ 12 ∧ fs ≠ 16) then "bad-op"
+      else
+        let a := Opus.SilkSynthIdx.paramsAccesses
+          { fsKHz := fs, nbSubfr := nb, signalType := sig, perIndex := per, ltpIndex := ltp, ltpScaleIndex := scale,
+            interpCoefQ2 := interp, firstFrameAfterReset := ffar ≠ 0, lossCnt := loss }
+        s!"OK {Opus.SilkSynthIdx.extentsStr a [.gainsIdx, .gains, .nlsfIdx, .predCoef, .prevNlsf, .pitchL, .ltpIdx, .ltpVq0, .ltpVq1, .ltpVq2, .ltpCoef]}"
+    | _, _, _ => "bad-op"
   | ["synthframe", fs, nb, loss, prev, lagPrev, ffar, plcFs, pq8, plcNb, plcS, lastLost, plcSeed, cngFs, cngSeed,
      lost, sig, qoff, interp, pl, ltp, gains, gd, ad, lowFirst] =>
     match [fs, loss, prev, lagPrev, ffar, plcFs, pq8, plcNb, plcS, lastLost, plcSeed, cngFs, cngSeed, lost, sig, qoff,
